@@ -137,3 +137,4 @@ CHECKS["C06"]["packages"] = ["l1chan", "l2node"]
 CHECKS["C02"]["packages"] = ["l1chan", "l2node"]
 
 CHECKS["C09"]["packages"] = ["l1chan", "l2node"]
+CHECKS["C11"]["packages"] = ["l1chan", "l2node"]
